@@ -34,16 +34,17 @@ def run_cases(chk, plan, label, crlf_ok=True):
     for i, (case, ext, variant) in enumerate(plan):
         crlf = crlf_ok and (variant % 5 == 3)
         mb = variant % 4 == 1
-        r = langs.render(case["items"], ext, variant, crlf=crlf, multibyte=mb)
+        bare = variant % 7 == 6 and ext not in ("md", "markdown")
+        r = langs.render(case["items"], ext, variant, crlf=crlf, multibyte=mb, bare=bare, endsp=(variant // 3) if variant % 3 == 0 else None)
         cid = "%s%d" % (label, i)
         batch.append({"id": cid, "files": {r["name"]: r["text"]}, "diff": None, "args": ["list"], "terminal": True})
-        meta[cid] = (case, ext, variant, r, crlf, mb)
+        meta[cid] = (case, ext, variant, r, crlf, mb, bare)
     results = vlib.run_bwexec(batch, trace_dir=tdir)
     blocks_by_case = {}
     for fn in os.listdir(tdir):
         for cid, evs in runtrace.split_cases(runtrace.read_events(os.path.join(tdir, fn))).items():
             blocks_by_case[cid] = [e for e in evs if e["ev"] == "block"]
-    for cid, (case, ext, variant, r, crlf, mb) in meta.items():
+    for cid, (case, ext, variant, r, crlf, mb, bare) in meta.items():
         res = results[cid]
         conc = next(b for b in batch if b["id"] == cid) if len(batch) < 2000 else {"id": cid, "files": {r["name"]: r["text"]}, "args": ["list"], "terminal": True, "diff": None}
         chk.count(key=None, nontrivial=len(case["blocks"]) >= 1)
@@ -59,7 +60,7 @@ def run_cases(chk, plan, label, crlf_ok=True):
         exp = expected_blocks(case, r)
         listed = (res["list"] or {}).get(r["name"], [])
         got = [(b["name"], b["line"], b["column"]) for b in listed]
-        want = [(e["name"], e["line"], e["col"]) for e in exp]
+        want = [(e["name"] if not bare else "(unnamed)", e["line"], e["col"]) for e in exp]
         if sorted(got) != sorted(want):
             chk.violation("%s: blocks found %s, blocks written in comments %s" % (ext, sorted(got), sorted(want)),
                           dict(detail, expected=exp))
@@ -70,7 +71,7 @@ def run_cases(chk, plan, label, crlf_ok=True):
             chk.violation("%s: blocks not reported in source order: %s" % (ext, got), detail)
         # attributes as written
         for b in listed:
-            if b["attributes"] != {"name": b["name"]}:
+            if b["attributes"] != ({} if bare else {"name": b["name"]}):
                 chk.violation("%s: attributes %s for block %s" % (ext, b["attributes"], b["name"]), detail)
         # content bytes from the block hook events (tag line -> content range)
         tb = {(e["tag"][0], e["tag"][1]): e for e in blocks_by_case.get(cid, [])}
